@@ -258,6 +258,13 @@ example : tokenize (['p', ',', 'k'] ++ [',']) = tokenize ['p', ',', 'k'] ++ [.co
 example : pluginParser (['p', '\\'] ++ [',']) ≠ pluginParser ['p', '\\'] := by decide
 example : pluginParser (['p', ','] ++ [',']) ≠ pluginParser ['p', ','] := by decide
 
+/-- the same with the first hypothesis replaced by a condition on the text as written: `s` does not end in a
+    backslash (then the appended comma cannot be an escaped one — `tokenize_snoc_comma`, for every string). -/
+theorem trailing_comma_ignored_of_no_final_backslash (s : List Char)
+    (h1 : endsBs s = false) (h2 : (tokenize s).getLast? ≠ some .comma) :
+    pluginParser (s ++ [',']) = pluginParser s :=
+  trailing_comma_ignored s (tokenize_snoc_comma s h1) h2
+
 end Slicec.C19
 
 #print axioms Slicec.C19.rejects_empty
@@ -274,3 +281,4 @@ end Slicec.C19
 #print axioms Slicec.C19.render_injective
 #print axioms Slicec.C19.trim_idempotent
 #print axioms Slicec.C19.trailing_comma_ignored
+#print axioms Slicec.C19.trailing_comma_ignored_of_no_final_backslash
